@@ -211,10 +211,11 @@ Definition sort_nat (l : list nat) : list nat := fold_right insert_nat [] l.
 (* trace_origin on the client for a non-star node: does it bind n (t_match without the star case) *)
 Definition t_binds (b : binding) (n : name) : bool := t_match [] (fun _ _ => false) n b.
 
-(* Every referenced name is traced in the client (after the repair: not only the undefined ones).
-   Walk the client from its LAST statement: a pending name goes to the last star whose module has
-   it, unless a later non-star statement binds it; a star that gets no name is deleted.  The
-   result is in reversed order, like the input. *)
+(* Every referenced name is looked for in every star import of the client (after the round-4 repair:
+   whatever else binds the name in the client does not matter -- the explicit import is put where
+   the star import was, so later bindings still win).  Walk the client from its LAST statement: a
+   pending name goes to the last star whose module has it; a star that gets no name is deleted.
+   The result is in reversed order, like the input. *)
 Fixpoint expand_rev (has : modname -> name -> bool) (rbs : list binding) (pending : list name)
   : list binding :=
   match rbs with
@@ -223,7 +224,7 @@ Fixpoint expand_rev (has : modname -> name -> bool) (rbs : list binding) (pendin
     let mine := filter (has m) pending in
     let rest := filter (fun n => negb (has m n)) pending in
     rev (map (fun n => From m n n) (sort_nat mine)) ++ expand_rev has tl rest
-  | b :: tl => b :: expand_rev has tl (filter (fun n => negb (t_binds b n)) pending)
+  | b :: tl => b :: expand_rev has tl pending
   end.
 
 Definition has_star (bs : list binding) : bool :=
